@@ -215,6 +215,13 @@ def run(tier):
             R.ob('no-intermediate-wraps-at-max-ell', name, 'holds', detail='ell in %s' % ells)
     R.evaluations = nodes
     R.floor('expression nodes given an interval', nodes, 1000000)
+    # low end of the declared length range: reference and AVX2 agree modulo each prime for ell = 0, 1, 2
+    # (the statement's last sentence; the same engine as C10, restricted to the pair clause)
+    from . import C10
+    ncmp = C10.products(L, R, C10.primes(), tier, ells=[0, 1, 2], rename={
+        'avx2-product-is-congruent-to-the-reference': 'avx2-agrees-with-reference-at-the-short-end-of-the-length-range',
+        'empty-product-is-zero': 'empty-product-is-zero'})
+    R.floor('lanes compared between reference and AVX2 at ell in {0,1,2}', ncmp, 60)
     # table constants in evidence (re-derived from the current source on every run)
     from ..harness import Ctx
     c = Ctx(L, 'accel')
